@@ -47,10 +47,18 @@ Definition deliver (c : child) (sig : Z) : child :=
   else die c (status_of_signal sig).                          (* any other signal: default action terminate *)
 
 (** the child does something by itself *)
-Inductive envev := EExit (code : Z) | ESignalled (sig : Z).
+(** [EReapedElsewhere]: somebody else collects the dead child's wait status - the kernel itself when the application ignores
+    SIGCHLD, another waitpid(-1) in the application, a signal handler: pexpect can then never learn the fate *)
+Inductive envev := EExit (code : Z) | ESignalled (sig : Z) | EReapedElsewhere.
 Definition env1 (c : child) (e : envev) : child :=
-  if negb (alive c) then c
-  else match e with EExit code => die c (status_of_exit code) | ESignalled s => die c (status_of_signal s) end.
+  match e with
+  | EReapedElsewhere =>
+      if alive c then c
+      else {| alive := false; reaped := true; fate := fate c; ign_hup := ign_hup c; ign_int := ign_int c;
+              stopped := stopped c; pend_hup := pend_hup c; pend_int := pend_int c |}
+  | EExit code => if negb (alive c) then c else die c (status_of_exit code)
+  | ESignalled s => if negb (alive c) then c else die c (status_of_signal s)
+  end.
 
 (** -- ptyprocess.PtyProcess and pexpect.spawn state ------------------------------------------------ *)
 Record pty := { t_terminated : bool; t_status : option Z; t_exit : option Z; t_sig : option Z; t_closed : bool;
